@@ -20,6 +20,7 @@ from mc.recorders import make_model, score_log
 from mc.ref.tdc import ref_qvalues
 
 PROPERTY = "C11"
+SIZE_MODULES = ['mokapot.brew', 'mokapot.dataset']  # see mc.runner._sized_passes
 LEVEL = "exploration"
 RULE = (
     "case = (spectrum-multiplicity vector, scan offset, folds 2..6, test_fdr in {0.13,0.26,0.34,0.51}, estimator "
